@@ -1,20 +1,44 @@
+//! Ad-hoc: rebuild one cell clip by clip and report where the float filter contradicts the
+//! exact predicate.
+use glam::DVec3;
+use meshless_voronoi::verif_hooks as hooks;
+use meshless_voronoi::HalfSpace;
 use mvv::case::Case;
-use mvv::obs;
 fn main() {
     let args: Vec<String> = std::env::args().collect();
     let c = Case::load(&args[1]).unwrap();
     let i: usize = args[2].parse().unwrap();
-    let v = obs::observe(&obs::build(&c));
-    let g = c.eff_gens()[i];
-    println!("cell {i} g {:?} V {:e}", g, v.cells[i].volume);
-    let mut div = 0.;
-    for &k in &v.cells[i].face_indices {
-        let f = &v.faces[k];
-        let sgn = if f.left == i { 1. } else { -1. };
-        let n = obs::v3(f.normal) * sgn;
-        let t = f.area * n.dot(obs::v3(f.centroid) - obs::v3(g));
-        div += t;
-        println!("  face {k}: left {} right {:?} shift {:?} area {:e} centroid {:?} n_out {:?} -> A n.(c-g) = {:e}", f.left, f.right, f.shift, f.area, f.centroid, n, t);
+    let (a, w) = (DVec3::from_array(c.eff_anchor()), DVec3::from_array(c.eff_width()));
+    let grid = hooks::Grid::new(a, w, c.periodic, c.dimensionality());
+    let gens = hooks::make_generators(&c.gens_v(), c.dimensionality());
+    let seq = hooks::nn_sequence(&c.gens_v(), i, c.dimensionality(), c.periodic, w, 200);
+    let loc = gens[i].loc();
+    let mut cell = hooks::cell_init(loc, i, &grid);
+    for (step, (j, s)) in seq[1..].iter().enumerate() {
+        let ngb = gens[*j].loc() + s.unwrap_or(DVec3::ZERO);
+        let dx = loc - ngb;
+        let dist = dx.length();
+        if hooks::cell_safety_radius(&cell) < dist {
+            println!("terminated at step {step}");
+            break;
+        }
+        let hs = HalfSpace::new(dx / dist, 0.5 * (loc + ngb), Some(*j), *s);
+        let dec = hooks::clip_decisions(&cell, &hs, &gens, &grid);
+        let bad: Vec<_> = dec.iter().enumerate().filter(|(_, (f, e))| *f != 0. && *e != 0. && f != e).collect();
+        let undecided = dec.iter().filter(|(f, _)| *f == 0.).count();
+        let zeros = dec.iter().filter(|(_, e)| *e == 0.).count();
+        println!("step {step}: clip by {j} shift {:?} dist {:e}: {} vertices, filter undecided {undecided}, exact zeros {zeros}, CONTRADICTIONS {}", s, dist, dec.len(), bad.len());
+        for (k, (f, e)) in &bad {
+            let v = &cell.vertices[*k];
+            println!("    vertex {k} dual {:?} loc {:?}: filter {f} exact {e}; n.(v-p) = {:e}", v.dual, v.loc, hs.plane.n.dot(v.loc - hs.plane.p));
+        }
+        let r = std::panic::catch_unwind(std::panic::AssertUnwindSafe(|| hooks::cell_clip(&mut cell, hs.clone(), &gens, &grid)));
+        if r.is_err() {
+            println!("PANIC in this clip; removed-by-decision: {:?}", dec.iter().map(|(f, e)| if *f == 0. { *e } else { *f }).collect::<Vec<_>>());
+            for (k, v) in cell.vertices.iter().enumerate() {
+                println!("    v{k} dual {:?}", v.dual);
+            }
+            break;
+        }
     }
-    println!("div/d = {:e}", div / c.d() as f64);
 }
